@@ -303,3 +303,35 @@ def edges_excluded_when(fn, is_subject, value):
         elif value not in vals:
             out.add((s0, d0))
     return out
+
+
+def equals_edges(fn, is_subject, value):
+    """CFG edges on which the expression accepted by is_subject is known to equal the integer `value`:
+    the true arm of `subject == value`, the false arm of `subject != value`, the `case value:` edge of a
+    switch on it (when that label carries no other value)"""
+    out = set()
+    for (s0, d0, c, pol) in fn.cfg.cond_edges():
+        j = fn.strip(c)
+        nd = fn.nodes[j]
+        neg = False
+        while nd["k"] == "Un" and nd["op"] == "!":
+            j = fn.strip(nd["ch"][0])
+            nd = fn.nodes[j]
+            neg = not neg
+        if nd["k"] != "Bin" or nd["op"] not in ("==", "!="):
+            continue
+        a, b = nd["ch"]
+        for (x, y) in ((a, b), (b, a)):
+            if fn.constval(y) == value and is_subject(fn, x):
+                if ((nd["op"] == "==") != neg) == pol:
+                    out.add((s0, d0))
+    for (s0, d0, c, vals) in fn.cfg.switch_edges():
+        if c is not None and c >= 0 and is_subject(fn, c) and vals == {value}:
+            out.add((s0, d0))
+    return out
+
+
+def guarded_equal(fn, node, is_subject, value):
+    """every path from the entry to `node` takes an edge on which the subject equals `value`"""
+    b, _ = pos_of(fn, node)
+    return b not in fn.cfg.reachable_blocks(removed_edges=equals_edges(fn, is_subject, value))
